@@ -467,7 +467,7 @@ func (g *Gen) hashCmd() []string {
 	case 16, 17, 18:
 		return []string{g.name("HINCRBY"), k, g.field(), g.anyInt()}
 	case 19:
-		return []string{g.name("HINCRBYFLOAT"), k, g.field(), g.pick("0.5", "1", "-2.25", "1e3", "abc", "nan", "inf", "1e30")}
+		return []string{g.name("HINCRBYFLOAT"), k, g.field(), g.pick("0.5", "1", "-2.25", "1e3", "abc", "nan", "inf", "1e30", "1.5e308", "1.5e308", "-1.5e308")}
 	case 20, 21, 22:
 		a := []string{g.name("HRANDFIELD"), k}
 		if g.chance(4) {
@@ -493,7 +493,9 @@ func btoi(b bool) int {
 func (g *Gen) hval() string {
 	switch g.r.IntN(5) {
 	case 0:
-		return g.pick("0", "5", "-5", "9223372036854775806", "-9223372036854775807", "9223372036854775807", "-9223372036854775808", "abc", "1.5")
+		return g.pick("0", "5", "-5", "9223372036854775806", "-9223372036854775807", "9223372036854775807", "-9223372036854775808", "abc", "1.5",
+			// decimal strings that are not canonical integers
+			"-0", "-07", "-010", "+5", "007", " 5", "5 ", "0x10", "")
 	}
 	return g.val()
 }
